@@ -28,10 +28,12 @@ CONSTANTS
   FailSaves = FALSE
   Focus = TRUE
   Record = TRUE
+  ReadOnly = FALSE
   RM = TRUE
   Slots = 2
   RmUuids = {1}
   Scrapes = FALSE
+  HookScrapes = FALSE
   Marking = FALSE
   WindAt = 30
   Gaps = {}
